@@ -128,6 +128,42 @@ def intern_matrix(w, A, want_inverse):
         if want_inverse:
             raise S.ShimUnsupported("inverse of a block matrix")
         return None, _block_logdet(w, A)
+    # batch-index abstraction: a matrix family indexed through index maps (slices, picks, scatter sources) is the
+    # instantiation of the family indexed by plain batch variables; intern the family and instantiate its atoms
+    batch0 = [c for a in A.axes[:-2] for c in a.comps]
+    abst = {}
+    bset = set(map(id, batch0))
+
+    def _abs(t):
+        if K.is_app(t) and t[1] in w.map_sort and all(id(v) in bset for v in K.ivs_in(t)):
+            key_ = repr(t)
+            if key_ not in abst:
+                abst[key_] = (t, IV(w.map_sort[t[1]]))
+            return abst[key_][1]
+        return t
+    if any(K.is_app(t) for t in K.index_terms(A.expr)):
+        Aexpr2 = K.map_indices(A.expr, _abs)
+        if abst:
+            inner = S.SymArr([S.Axis([u]) for (_, u) in abst.values()] + [a for a in A.axes], {(): Aexpr2})
+            inv_f, ld_f = intern_matrix(w, inner, want_inverse)
+            # instantiate: substitute the abstraction variables back by their terms
+            def inst(arr):
+                if arr is None:
+                    return None
+                comps = [a.comps[0] for a in arr.axes[:len(abst)]]
+                m_ = {c: t for c, (t, _) in zip(comps, abst.values())}
+                return S.SymArr(arr.axes[len(abst):], {(): K.subst(arr.expr, m_)})
+            # align remaining axes of the results with A's axes
+            def align(arr, axes):
+                if arr is None:
+                    return None
+                m_ = {}
+                for a_, b_ in zip(arr.axes, axes):
+                    m_.update(zip(a_.comps, b_.comps))
+                return S.SymArr(list(axes), {(): K.subst(arr.expr, m_)})
+            inv_i = align(inst(inv_f), A.axes)
+            ld_i = align(inst(ld_f), A.axes[:-2])
+            return (inv_i.fresh_copy() if inv_i is not None else None), ld_i.fresh_copy()
     p = K.normalize(A.expr, ctx)
     batch_comps = [c for a in A.axes[:-2] for c in a.comps]
     sa = _single_atom(p)
